@@ -58,8 +58,11 @@ public:
    ScopedAttribute& operator =( ScopedAttribute&&) = delete;
 
 private:
-   /// The name of the attribute. Used to remove the attribute again.
+   /// The name of the attribute.
    const std::string  mAttributeName;
+   /// The identification of the attribute that was added by this object. Used
+   /// to remove exactly this attribute again.
+   const size_t       mAttributeId;
 
 }; // ScopedAttribute
 
